@@ -134,6 +134,13 @@ def name_programs():
         for nm in ("a" + c, c + "a", c):
             out += ["@%s|1;" % nm, "@%s|1;@%s;" % (nm, nm), "@%s;" % nm, "(%s|1)" % nm, "@f:%s|1;" % nm, "@f:a:%s|1;" % nm, "@f:%s:2|1;" % nm,
                     "λ@%s|1;;" % nm, "[(%s|1)]" % nm]
+    # numbers where a number is expected (parameter counts, lambda arities): every digit string of length <= 3 over 0 1 7 - the
+    # text of the program is not necessarily a canonical Python literal (leading zeros)
+    for n in (1, 2, 3):
+        for d in itertools.product("017", repeat=n):
+            num = "".join(d)
+            out += ["@f:%s|1;" % num, "@f:%s|1;3 4 5@f;" % num, "@f:a:%s|1;" % num, "@f:%s:a|1;" % num, "@f:%s:%s|1;" % (num, num),
+                    "λ%s|1;" % num, "3 4 5λ%s|1;†" % num, "(λ%s|+;)" % num]
     return out
 
 
